@@ -52,4 +52,17 @@ PROPS = {
         "trusted_base": ["hand-written model GGV.Model.Config of src/config/config.go (parseStringList, parseBool, FromEnv, CreateFlagSet defaults, ParseFlagsFromFlagSet, ShouldSkipFile), tied in-process and through the real binary",
                          "defaults regenerated from config.Default() (T5)", "package flag, os.LookupEnv, strings.TrimSpace/ToUpper/ToLower/Split/Join as Go provides them"],
     },
+    "C15": {
+        "theorems": T("C15", ["recogniseBare_iff", "recognise_iff_immutable", "recognise_iff_testonly", "recognise_iff_mutable",
+                               "keyword_exact_list", "keyword_exact_implements", "keyword_exact_bare", "list_names_valid",
+                               "constructor_names", "ignore_codes_upper", "prefilter_complete", "near_miss_inert"]),
+        "suites": ["gram"],
+        "assumptions": [
+            "comment texts are byte strings; RE2's \\s, \\w and the identifier classes are ASCII, '.' excludes only LF",
+            "the regexes and the Aho-Corasick pre-filter are not translated into Lean: they are tied to the recogniser functions by the bounded-exhaustive + fuzz correspondence (as the property itself prescribes)",
+            "texts that go/parser rejects (illegal UTF-8, NUL) cannot occur in a compilable package and are counted as outside_fragment",
+        ],
+        "trusted_base": ["hand-written recognisers GGV.Model.Grammar (closed form of the six regexes' leftmost-first behaviour + capture post-processing), tied through the real ReadAllAnnotations / ReadIgnoreAnnotations",
+                         "go/parser comment attachment, regexp (RE2)"],
+    },
 }
